@@ -222,7 +222,33 @@ def followup():
     return [body0(), body1(), run({"u": 1.5}), run({"u": collections.OrderedDict(c=None)}), repr(apischema.deserialize(U, D1(z=0)))]
 '''
 
-QUICK = ["H1_deser_selfrec", "H2_ser_selfrec", "H3_shared_member", "H4_mutual", "H7_plain_control", "H10_schema_same_direction"]
+# a validator inherited from a base class, reading its fields through a method the subclass overrides: its dependencies for the
+# subclass are computed at the first deserialization of the subclass, from both threads at once
+H_SRC["H13_inherited_validator"] = '''
+@dataclass
+class VBase(metaclass=DetMeta):
+    lo: int = 0
+    hi: int = 10
+    def span(self): return self.hi - self.lo
+    @validator
+    def chk(self):
+        if self.span() < 0:
+            raise ValidationError("lo > hi")
+@dataclass
+class VChild(VBase):
+    off: int = 0
+    def span(self): return self.hi - self.lo - self.off
+def run(d):
+    try: return repr(apischema.deserialize(VChild, d))
+    except ValidationError as e: return repr(e.errors)
+def body0(): return run({"lo": 5, "hi": 1})
+def body1(): return run({"lo": 0, "hi": 3, "off": 5})
+BODIES = [body0, body1]
+def followup():
+    return [body0(), body1(), run({"lo": 1, "hi": 2}), run({"off": "x", "lo": 3, "hi": 1}), repr(apischema.deserialize(VBase, {"lo": 0, "hi": 1}))]
+'''
+
+QUICK = ["H1_deser_selfrec", "H2_ser_selfrec", "H3_shared_member", "H4_mutual", "H7_plain_control", "H10_schema_same_direction", "H13_inherited_validator"]
 ALL = list(H_SRC)
 
 
@@ -453,7 +479,7 @@ def run_config(plan, instr, wide, max_schedules=None, nworkers=None) -> infra.St
 def main(tier: str, t0: float) -> int:
     if tier == "quick":
         st = run_config([(h, 1) for h in QUICK], False, True)
-        everywhere_q = ["H1_deser_selfrec", "H2_ser_selfrec", "H9_validators_conv", "H12_union_by_type_subclass_data"]
+        everywhere_q = ["H1_deser_selfrec", "H2_ser_selfrec", "H9_validators_conv", "H12_union_by_type_subclass_data", "H13_inherited_validator"]
         st.merge(run_config([(h, 1) for h in everywhere_q], False, "all"))
         plan_desc = {"wide line points, 1 preemption": QUICK, "line points in every apischema module, 1 preemption": everywhere_q}
     else:
@@ -462,7 +488,7 @@ def main(tier: str, t0: float) -> int:
         st.merge(run_config([(h, 2) for h in two], False, "tiny"))
         core4 = ["H1_deser_selfrec", "H2_ser_selfrec", "H3_shared_member", "H4_mutual"]
         st.merge(run_config([(h, 1) for h in core4], True, False))
-        everywhere = ["H1_deser_selfrec", "H2_ser_selfrec", "H9_validators_conv", "H10_schema_same_direction", "H11_ser_schema_same_direction", "H12_union_by_type_subclass_data"]
+        everywhere = ["H1_deser_selfrec", "H2_ser_selfrec", "H9_validators_conv", "H10_schema_same_direction", "H11_ser_schema_same_direction", "H12_union_by_type_subclass_data", "H13_inherited_validator"]
         st.merge(run_config([(h, 1) for h in everywhere], False, "all"))
         plan_desc = {"wide line points, 1 preemption": ALL, "recursion/cache line points, 2 preemptions": two, "bytecode points on recursion core, 1 preemption": core4, "line points in every apischema module, 1 preemption": everywhere}
     st.counters["evaluations"] = st.counters.get("schedules", 0)
